@@ -36,4 +36,91 @@ def posLe (a b : Occ) : Bool := decide (a.pos ≤ b.pos)
 def scriptNames (occs : List Occ) (allScopes definitions references : Bool) : List Occ :=
   (getModuleNames occs allScopes definitions references).mergeSort posLe
 
+/-! ## histories of name enumerations on ONE Script
+
+`Script._names` is `[create_name(name) for name in <call>]`, sorted.  `helpers.get_module_names`
+returns `filter(def_ref_filter, names)`: an iterator that can be read once.  As long as every
+`_names` makes a fresh call that is harmless.  If the call is put under a memo decorator
+(`cache.memoize_method`: `dct[key] = result`, keyed by the arguments) the Script remembers the
+iterator itself, the list comprehension of the first enumeration reads it to its end, and every later
+enumeration with the same flags sees nothing. -/
+
+/-- the three flags of `Script.get_names` / `Script._names`: (all_scopes, definitions, references) -/
+abbrev Flags := Bool × Bool × Bool
+
+def namesOf (occs : List Occ) (f : Flags) : List Occ := scriptNames occs f.1 f.2.1 f.2.2
+
+/-- where `Script._names` takes its names from: `for name in <call>` -/
+structure NameSource where
+  /-- the callee is under a decorator that remembers what it returned -/
+  memoised : Bool
+  /-- the callee hands out an iterator that can be read once -/
+  oneShot : Bool
+deriving DecidableEq, Repr
+
+/-- the `_memoize_method_dct` entry of one Script for that callee: flags ↦ what the remembered
+object still yields -/
+abbrev Memo := List (Flags × List Occ)
+
+def Memo.get (f : Flags) : Memo → Option (List Occ)
+  | [] => none
+  | (g, v) :: m => if g = f then some v else Memo.get f m
+
+def Memo.set (f : Flags) (v : List Occ) : Memo → Memo
+  | [] => [(f, v)]
+  | (g, w) :: m => if g = f then (f, v) :: m else (g, w) :: Memo.set f v m
+
+/-- one `Script._names(flags)` on a Script whose memo is `m`: the list comprehension reads the
+iterable to its end; a remembered one-shot iterator is empty afterwards, a remembered container (or a
+fresh call) is not.  Returns the answer and the memo afterwards. -/
+def namesStep (src : NameSource) (occs : List Occ) (m : Memo) (f : Flags) : List Occ × Memo :=
+  if !src.memoised then (namesOf occs f, m)
+  else
+    match m.get f with
+    | some left =>
+      (left.mergeSort posLe, if src.oneShot then m.set f [] else m)
+    | none =>
+      let v := getModuleNames occs f.1 f.2.1 f.2.2
+      (v.mergeSort posLe, m.set f (if src.oneShot then [] else v))
+
+/-- a history of name enumerations on ONE Script -/
+def namesHistory (src : NameSource) (occs : List Occ) : Memo → List Flags → List (List Occ)
+  | _, [] => []
+  | m, f :: fs => (namesStep src occs m f).1 :: namesHistory src occs (namesStep src occs m f).2 fs
+
+/-! ## what a memo decorator stack remembers (rows of the translator's table over `jedi/api/`) -/
+
+inductive DecKind where
+  | cache            -- remembers the returned object as it is (memoize_method, time_cache, lru_cache, an attribute …)
+  | generatorCache   -- inference_state_method_generator_cache: made for generator functions, replays
+  | protocolCache    -- signature_time_cache: takes key and value out of the generator itself
+  | materialise      -- to_list / to_tuple / iterator_to_value_set
+  | transparent      -- everything else hands the object on
+deriving DecidableEq, Repr
+
+def decKind (d : String) : DecKind :=
+  if ["memoize_method", "time_cache", "_memoize_default", "inference_state_function_cache",
+      "inference_state_method_cache", "inference_state_as_method_param_cache", "lru_cache", "cache",
+      "cached_property", "attribute"].contains d then .cache
+  else if d = "inference_state_method_generator_cache" then .generatorCache
+  else if d = "signature_time_cache" then .protocolCache
+  else if ["to_list", "to_tuple", "iterator_to_value_set"].contains d then .materialise
+  else .transparent
+
+/-- walks a decorator stack from the function outwards (`ds` innermost first); `oneShot` = the
+callable below hands out a one-shot iterator.  Every remembering decorator must see something that
+can be read again; the two generator-aware ones must see a generator. -/
+def stackReplayable : List String → Bool → Bool
+  | [], _ => true
+  | d :: ds, oneShot =>
+    match decKind d with
+    | .cache => !oneShot && stackReplayable ds oneShot
+    | .generatorCache => oneShot && stackReplayable ds true
+    | .protocolCache => oneShot && stackReplayable ds false
+    | .materialise => stackReplayable ds false
+    | .transparent => stackReplayable ds oneShot
+
+/-- one row: (file:qualname, decorators OUTERMOST first, one-shot) -/
+def entryReplayable (e : String × List String × Bool) : Bool := stackReplayable e.2.1.reverse e.2.2
+
 end JediModel.Names
